@@ -144,6 +144,14 @@ pub struct InterpPt {
 }
 pub struct Interp;
 fn run_lib(hermite_: bool, complex: bool, xs: &[C], ys: &[C], ds: &[C], tol: f64) -> Result<Result<(Vec<C>, usize), String>, String> {
+    // data that are all (nearly) zero are run under a watchdog: a clean-up loop that never ends must be reported
+    if ys.iter().all(|y| y.norm() <= tol) {
+        let (xs, ys, ds) = (xs.to_vec(), ys.to_vec(), ds.to_vec());
+        return vcore::guard_timeout(10, move || run_lib_inner(hermite_, complex, &xs, &ys, &ds, tol)).and_then(|r| r);
+    }
+    run_lib_inner(hermite_, complex, xs, ys, ds, tol)
+}
+fn run_lib_inner(hermite_: bool, complex: bool, xs: &[C], ys: &[C], ds: &[C], tol: f64) -> Result<Result<(Vec<C>, usize), String>, String> {
     vcore::guard(|| {
         if complex {
             let p: Result<Polynomial<C>, String> = if hermite_ { hermite(xs, ys, ds, tol) } else { lagrange(xs, ys, tol) };
@@ -169,7 +177,7 @@ impl Check for Interp {
         "interpolants"
     }
     fn rule(&self) -> String {
-        "lagrange and hermite x 17 node families (10 real in [-2,2], 6 complex in the disc, real nodes held in the complex type; separation >= 0.2; complex data general, purely imaginary and purely real) x n = 1..=8 x data = every monomial within the degree bound and 6 fixed arbitrary vectors x zeroing tolerance; for each data set EVERY order of the nodes (n <= 6: all n!; n = 7, 8: all rotations and reversals); the reference interpolant is an independent dense solve of the (confluent) Vandermonde system; signature = (kind, family, n, data class)".into()
+        "lagrange and hermite x 17 node families (10 real in [-2,2], 6 complex in the disc, real nodes held in the complex type; separation >= 0.2; complex data general, purely imaginary and purely real) x n = 1..=8 x data = every monomial within the degree bound, 6 fixed arbitrary vectors, all-zero data and data below the zeroing tolerance x zeroing tolerance; for each data set EVERY order of the nodes (n <= 6: all n!; n = 7, 8: all rotations and reversals); the reference interpolant is an independent dense solve of the (confluent) Vandermonde system; signature = (kind, family, n, data class)".into()
     }
     fn axes(&self, t: Tier) -> Value {
         json!({"families": FAMILIES, "n": "1..=8", "tol": t.pick(vec![1e-14, 1e-6], vec![1e-14, 1e-10, 1e-6]), "all_orders_up_to_n": t.pick(5, 6)})
@@ -185,11 +193,18 @@ impl Check for Interp {
                     let bound = if hermite { 2 * n } else { n };
                     let mut datas: Vec<usize> = (0..bound).collect();
                     datas.extend((0..6).map(|k| 100 + k));
+                    // 200: every datum exactly zero; 201: every datum below the zeroing tolerance
+                    datas.push(200);
+                    if !hermite {
+                        // (for hermite the interpolant of values AND slopes of size 0.3 tol has coefficients of a few tol:
+                        // whether those survive the zeroing is not determined by the statement)
+                        datas.push(201);
+                    }
                     for data in datas {
                         if t == Tier::Quick && data < bound && data % 2 == 1 && data + 1 != bound {
                             continue;
                         }
-                        if t == Tier::Quick && data >= 102 {
+                        if t == Tier::Quick && data >= 102 && data < 200 {
                             continue;
                         }
                         for &tol in &t.pick(vec![1e-14, 1e-6], vec![1e-14, 1e-10, 1e-6]) {
@@ -221,6 +236,9 @@ impl Check for Interp {
                 src[p.data - 2] = lead * 0.5; // not a pure monomial: a lower term keeps the data generic
             }
             (xs.iter().map(|x| horner(&src, *x)).collect(), xs.iter().map(|x| horner_d(&src, *x)).collect(), Some(src))
+        } else if p.data >= 200 {
+            let v = if p.data == 200 { C::new(0.0, 0.0) } else { C::new(0.3 * p.tol, if complex { -0.2 * p.tol } else { 0.0 }) };
+            (vec![v; p.n], vec![v; p.n], None)
         } else {
             let k = (p.data - 100) as u64;
             let val = |i: usize, s: u64| match (complex, p.lead) {
@@ -337,7 +355,7 @@ impl Check for Interp {
                 }
             }
         }
-        o.sig = format!("{}|{}|n{}|{}|{}", if p.hermite { "hermite" } else { "lagrange" }, if complex { ["complex", "complex-imaginary-data", "complex-real-data"][p.lead as usize] } else { "real" }, p.n, if p.data < 100 { "polynomial-data" } else { "arbitrary-data" }, if tier_all { "all-orders" } else { "rotations" });
+        o.sig = format!("{}|{}|n{}|{}|{}", if p.hermite { "hermite" } else { "lagrange" }, if complex { ["complex", "complex-imaginary-data", "complex-real-data"][p.lead as usize] } else { "real" }, p.n, if p.data < 100 { "polynomial-data" } else if p.data >= 200 { "zero-data" } else { "arbitrary-data" }, if tier_all { "all-orders" } else { "rotations" });
         o
     }
 }
